@@ -66,7 +66,7 @@ func main() {
 			"Oracle: reference interpreter written from the statement. A class = (container kinds present | depth | scope patterns | error pattern | condition-outcome vector bucket) " +
 			"observed on a compared evaluation, plus (defect | depth | position) for rejections and history/overlap patterns for reconfiguration.",
 		Assumptions: []string{
-			"what each filter's condition means is taken from the filters' doc comments (url parts equal where given; header has the value, on the message's own header; header.RegexFilter looks at the exchange's request header for both kinds; query parameter present and equal if a value is given; cookie name equal and value equal if given, request cookies for requests and Set-Cookie for responses; port of the request URL, explicit or scheme default)",
+			"what each filter's condition means is taken from the filters' doc comments (url parts equal where given; header has the value, on the message's own header; header.RegexFilter looks at the exchange's request header for both kinds; method.Filter compares the method ignoring case (martian's own tests configure \"get\" against GET requests), and both configured methods and request method tokens are drawn in upper, lower and mixed case; header.Filter on Host looks at the request's host (a response has no Host header); query parameter present and equal if a value is given; cookie name equal and value equal if given, request cookies for requests and Set-Cookie for responses; port of the request URL, explicit or scheme default)",
 			"no scope key = every message kind the node supports; [] names no kind",
 			"a node object with two modifier keys or none is not a configuration tree and counts as malformed; 'malformed JSON' is decided by encoding/json.Valid",
 			"every error reported once is checked on the flattened error multiset; order of aggregated errors is not checked",
